@@ -1112,6 +1112,12 @@ class CppMachine:
     def expr_stmt(self, st, e):
         e = strip(e)
         k = e.get('k')
+        if k == 'bin' and e.get('op') == ',':
+            # `a++, b++`: one after the other
+            outs = []
+            for s1 in self.expr_stmt(st, e['lhs']):
+                outs += self.expr_stmt(s1, e['rhs'])
+            return outs
         if k == 'call':
             return self.call(st, e)
         if k == 'assign':
